@@ -2,7 +2,7 @@
    the Gallina DES / AES.  Only ExtrOcamlBasic's directives are in force; N,
    positive, nat and Z stay Coq inductives. *)
 From Psec Require Import Lib.Base Cipher.Cipher Cipher.DES Cipher.AES Cipher.AESok
-  Model.Tools Model.Mac Model.Cvv Model.Pin Model.Pinblock Model.Tr31 Model.Entropy.
+  Model.Tools Model.Mac Model.Cvv Model.Pin Model.Pinblock Model.Tr31 Model.Entropy Model.BlocksApi.
 Require Extraction.
 Require ExtrOcamlBasic.
 
@@ -74,6 +74,7 @@ Definition p_int_of_hex := int_of_hex.
 Definition p_encode_ascii := encode_ascii.
 Definition x_choices10 := choices10.
 Definition x_draw := draw.
+Definition x_api_run := api_run.
 
 Extraction "model.ml"
   x_des_block_enc x_des_block_dec x_aes_block_enc x_aes_block_dec
@@ -90,4 +91,4 @@ Extraction "model.ml"
   x_new_header x_default_header x_run x_step x_mkState x_unwrap x_unwrap_legacy x_unwrap_clear
   x_wrap_str x_header_str
   p_fromhex p_a2b p_str_of_N p_to_bytes_be p_hex_lower p_hex_upper p_class p_upper
-  p_int_of_dec p_int_of_hex p_encode_ascii x_choices10 x_draw.
+  p_int_of_dec p_int_of_hex p_encode_ascii x_choices10 x_draw x_api_run.
